@@ -737,8 +737,16 @@ def c19(tier):
         for _ in range(6):
             nm = "".join(chr(rnd.choice([rnd.randrange(1, 127), rnd.randrange(0xA0, 0x800), rnd.randrange(0x800, 0xD800),
                                          rnd.randrange(0xE000, 0xFFFE), rnd.randrange(0x10000, 0x10FFFF)])) for _ in range(rnd.randint(1, 20)))
-            ops.append({"op": "StartFile", "name": nm, "method": 0})
+            # (writer options must not interfere with the name's encoding flag: encryption, large_file, other methods)
+            o = {"op": "StartFile", "name": nm, "method": rnd.choice([0, 0, 8, 93])}
+            if rnd.random() < 0.3:
+                o["enc"] = "pw"
+            if rnd.random() < 0.2:
+                o["large"] = True
+            ops.append(o)
             ops.append({"op": "Write", "data": "z"})
+        if rnd.random() < 0.3:
+            ops.append({"op": "AddDir", "name": "".join(chr(rnd.randrange(0xA0, 0x800)) for _ in range(4)), "method": 0})
         ops.append({"op": "Finish"})
         ws.append({"sc": "wn%05d" % i, "ops": ops})
     run_writer_programs(rep, wd, ws, "writer-names", neg_control=False)
